@@ -210,6 +210,11 @@ class Engine:
         if self.spec_mode:
             raise Unsupported("control-flow on a symbolic value inside a specification clause")
         if getattr(self, "pure_mode", 0):
+            # element of a comprehension over a symbolic sequence: the element is evaluated once for an arbitrary position, so
+            # no fork is possible; a condition that the path condition (which holds the position's range) decides is taken
+            ft, ff = self.feasible(cz), self.feasible(z3.Not(cz))
+            if ft != ff:
+                return ft
             raise Unsupported("control-flow on a symbolic value inside the element of a symbolic comprehension")
         if self.pos < len(self.trace):
             d = self.trace[self.pos]
